@@ -36,10 +36,15 @@ type epoch struct {
 
 type chanObs struct {
 	// block tables of the run the records come from (nil: the world's)
-	blockFirst []int
-	blockStamp []time.Time
-	recs   []recObs
-	epochs []epoch
+	blockFirst  []int
+	blockStamp  []time.Time
+	blockFrame0 []FrameIndex
+	recs        []recObs
+	epochs      []epoch
+	// filled in by checkExcerpts: index into the delivered stream of each record's trigger sample, and
+	// whether the record reaches across a loss of frames (restricted oracle)
+	idx    []int
+	across []bool
 }
 
 func drawLengths() (nsamp, npre int) {
@@ -93,6 +98,27 @@ func pipeBody(env *simrt.Env, prop string) {
 	nchan := 1 + simrt.Draw(4)
 	nsamp, npre := drawLengths()
 	rate := 10000.0
+	// faulted runs: one kind of hardware / consumer trouble per run (0, 1: none)
+	//   2 frames lost between blocks, reported (droppedFrames set, as a Lancero source does)
+	//   3 frames lost between blocks, not reported (only the frame numbers jump)
+	//   4 droppedFrames set on blocks of a contiguous stream (an Abaco source that filled in lost packets)
+	//   5 both kinds in one run
+	//   6 the consumer of the record/summary channel takes nothing for a while (back-pressure)
+	trouble := 0
+	if env.Faulted() {
+		trouble = simrt.DrawFault(7)
+	}
+	backPressure := trouble == 6
+	if backPressure {
+		// many short records on several channels, so that the 500 slots of the publish channel fill up
+		if nchan < 2 {
+			nchan = 2 + simrt.Draw(3)
+		}
+		if nsamp > 25 {
+			nsamp = []int{8, 10, 16, 25}[simrt.Draw(4)]
+			npre = 4 + simrt.Draw(nsamp-7)
+		}
+	}
 	w := newPipeWorld(env, nchan, npre, nsamp, rate)
 	resetViper(env.Dir)
 	for c := range w.signed {
@@ -125,10 +151,35 @@ func pipeBody(env *simrt.Env, prop string) {
 		}
 		blocks = append(blocks[:120], rest)
 	}
-	edges := edgesOf(blocks)
+	var bpBlocks []int
+	if backPressure {
+		for i := 0; i < 520/nchan+60; i++ {
+			n := nsamp + simrt.Draw(nsamp+1)
+			bpBlocks = append(bpBlocks, n)
+			total += n
+		}
+	}
+	edges := edgesOf(append(append([]int(nil), blocks...), bpBlocks...))
 	w.edges = map[int]bool{}
 	for _, e := range edges {
 		w.edges[e] = true
+	}
+	// lost frames and droppedFrames flags: which blocks (never the first)
+	gapAt := map[int]int{}
+	flagAt := map[int]int{}
+	if (trouble == 2 || trouble == 3 || trouble == 5) && len(blocks) > 2 {
+		for i := 0; i < 1+simrt.DrawFault(3); i++ {
+			sizes := []int{1, 2, 3, npre - 1, npre, nsamp - npre, nsamp - 1, nsamp, nsamp + 1, nsamp + npre + 10, nsamp + npre + 11, 2*nsamp + 10, 2*nsamp + 11,
+				3 * nsamp, 10*nsamp + simrt.DrawFault(1000), 1 << 20}
+			gapAt[1+simrt.DrawFault(len(blocks)-1)] = sizes[simrt.DrawFault(len(sizes))]
+		}
+	}
+	if trouble == 4 || trouble == 5 {
+		for bi := 1; bi < len(blocks); bi++ {
+			if simrt.DrawFault(4) == 1 {
+				flagAt[bi] = 1 + simrt.DrawFault(40)
+			}
+		}
 	}
 	specs := make([]streamSpec, nchan)
 	w.stream = make([][]RawType, nchan)
@@ -142,18 +193,26 @@ func pipeBody(env *simrt.Env, prop string) {
 	obs := make([]chanObs, nchan)
 	curTS := make([]TriggerState, nchan)
 
-	genTS := func(c int) TriggerState {
-		if allowEMT && simrt.Draw(3) == 0 {
-			return genEMTState(specs[c], w.signed[c], nsamp, npre)
+	busy := func(ts TriggerState) TriggerState {
+		if backPressure {
+			// a record at least every record length on every channel
+			ts.AutoTrigger, ts.AutoVetoRange = true, 0
+			ts.AutoDelay = time.Duration(float64(1+simrt.Draw(nsamp)) / rate * float64(time.Second))
 		}
-		return genTriggerState(specs[c], w.signed[c], nsamp, rate, true)
+		return ts
+	}
+	genTS := func(c int) TriggerState {
+		if allowEMT && !backPressure && simrt.Draw(3) == 0 {
+			return genEMTState(specs[c], w.signed[c], w.nsamp, w.npre)
+		}
+		return busy(genTriggerState(specs[c], w.signed[c], w.nsamp, rate, true))
 	}
 
 	// ---- history 1: settings restored from the saved configuration before Start
 	if history == 1 {
 		var fts []FullTriggerState
 		for c := 0; c < nchan; c++ {
-			ts := genTriggerState(specs[c], w.signed[c], nsamp, rate, true)
+			ts := busy(genTriggerState(specs[c], w.signed[c], nsamp, rate, true))
 			fts = append(fts, FullTriggerState{ChannelIndices: []int{c}, TriggerState: ts})
 		}
 		saveState(map[string]interface{}{"TRIGGER": fts})
@@ -183,6 +242,7 @@ func pipeBody(env *simrt.Env, prop string) {
 		err := w.sc.ConfigureTriggers(&st, &ok)
 		env.Op("ConfigureTriggers chan=%d %s -> %v", c, tsString(&ts), err)
 		if err != nil {
+			simrt.Hit("request-refused:triggers")
 			return
 		}
 		w.drain()
@@ -230,6 +290,79 @@ func pipeBody(env *simrt.Env, prop string) {
 		simrt.Hit("group-triggered-receivers-with-own-triggers")
 	}
 
+	// setLengths issues a pulse-length request and follows the server's answer.
+	setLengths := func(ns, np int) {
+		var ok bool
+		err := w.sc.ConfigurePulseLengths(SizeObject{Nsamp: ns, Npre: np}, &ok)
+		env.Op("ConfigurePulseLengths nsamp=%d npre=%d -> %v", ns, np, err)
+		w.drain()
+		if err != nil {
+			simrt.Hit("request-refused:lengths")
+		}
+		if err == nil && (ns != w.nsamp || np != w.npre) {
+			w.nsamp, w.npre = ns, np
+			for c := 0; c < nchan; c++ {
+				obs[c].epochs = append(obs[c].epochs, epoch{from: w.sent, recFrom: w.recCount(c), ts: curTS[c], npre: np, nsamp: ns})
+			}
+		}
+	}
+	// requestSequence: pulse-length requests and trigger requests one after the other with data retained,
+	// in both orders, including requests the server refuses (lengths too short on one side for the edge-multi
+	// settings in force, or edge-multi settings that do not fit the lengths in force). Whether a request is
+	// valid depends on what the EARLIER requests left in force; the harness does not predict the answer, it
+	// follows it: what the server accepted is in force from here on, what it refused changed nothing.
+	oddLengths := [][2]int{{8, 6}, {8, 5}, {10, 3}, {6, 3}, {5, 4}, {4, 3}, {12, 9}, {16, 13}, {7, 3}, {9, 4}, {10, 8}, {16, 14}, {25, 23}, {50, 49}, {120, 118}}
+	requestSequence := func() {
+		c := simrt.Draw(nchan)
+		pat := simrt.Draw(4)
+		n := 2 + simrt.Draw(3)
+		for i := 0; i < n; i++ {
+			// 0 usual lengths, 1 lengths with a short side, 2 trigger request (edge/level/auto), 3 edge-multi request, 4 all triggers off
+			kind := simrt.Draw(5)
+			switch pat {
+			case 0:
+				kind = []int{1, 3, 0, 3}[i]
+			case 1:
+				kind = []int{4, 1, 3, 0}[i]
+			case 2:
+				kind = []int{3, 1, 3, 0}[i]
+			}
+			if !allowEMT && kind >= 3 {
+				kind = 2
+			}
+			switch kind {
+			case 0:
+				ns, np := drawLengths()
+				if ns > 120 {
+					ns, np = 25, 4+simrt.Draw(18)
+				}
+				setLengths(ns, np)
+			case 1:
+				l := oddLengths[simrt.Draw(len(oddLengths))]
+				setLengths(l[0], l[1])
+				simrt.Hit("request-order:lengths-with-a-short-side")
+			case 2:
+				configure(c, busy(genTriggerState(specs[c], w.signed[c], w.nsamp, rate, true)))
+			case 3:
+				ts := genEMTState(specs[c], w.signed[c], w.nsamp, w.npre)
+				if simrt.Draw(4) == 0 {
+					ts.EdgeMultiVerifyNMonotone = w.nsamp - w.npre + 1 + simrt.Draw(3)
+				}
+				was := curTS[c].EdgeMulti
+				configure(c, ts)
+				if curTS[c].EdgeMulti && !was {
+					simrt.Hit("request-order:edge-multi-switched-on-mid-run")
+					if w.nsamp-w.npre < 4 || w.npre < 4 {
+						simrt.Hit("request-order:edge-multi-on-with-a-short-side")
+					}
+				}
+			default:
+				configure(c, TriggerState{AutoDelay: 250 * time.Millisecond, EdgeLevel: 100, EdgeRising: true, LevelLevel: 4000})
+			}
+		}
+		simrt.Hit("request-sequence-mid-run")
+	}
+
 	// when (in blocks) mid-run requests happen
 	reconfAt := -1
 	if history >= 2 && len(blocks) > 4 {
@@ -241,7 +374,16 @@ func pipeBody(env *simrt.Env, prop string) {
 	if len(blocks) > 3 && simrt.Draw(3) == 0 {
 		refuseAt = 1 + simrt.Draw(len(blocks)-2)
 	}
+	orderAt := -1
+	if len(blocks) > 4 && !c02Group && simrt.Draw(3) == 0 {
+		orderAt = 1 + simrt.Draw(len(blocks)-3)
+	}
 	for bi, n := range blocks {
+		if bi == orderAt {
+			w.sync()
+			w.drain()
+			requestSequence()
+		}
 		if bi == refuseAt {
 			w.sync()
 			w.drain()
@@ -278,16 +420,7 @@ func pipeBody(env *simrt.Env, prop string) {
 				} else {
 					simrt.Hit("pulse-length-request-without-change")
 				}
-				var ok bool
-				err := w.sc.ConfigurePulseLengths(SizeObject{Nsamp: ns, Npre: np}, &ok)
-				env.Op("ConfigurePulseLengths nsamp=%d npre=%d -> %v", ns, np, err)
-				w.drain()
-				if err == nil && (ns != w.nsamp || np != w.npre) {
-					w.nsamp, w.npre = ns, np
-					for c := 0; c < nchan; c++ {
-						obs[c].epochs = append(obs[c].epochs, epoch{from: w.sent, recFrom: w.recCount(c), ts: curTS[c], npre: np, nsamp: ns})
-					}
-				}
+				setLengths(ns, np)
 			} else {
 				c := simrt.Draw(nchan)
 				configure(c, genTS(c))
@@ -300,15 +433,80 @@ func pipeBody(env *simrt.Env, prop string) {
 		if n == 1 {
 			simrt.Hit("block-of-one-sample")
 		}
+		if g := gapAt[bi]; g > 0 {
+			w.gapNext = g
+			if trouble != 3 {
+				w.dropNext = g
+			}
+			simrt.Fault("frames-lost-between-blocks")
+			if g > w.nsamp+w.npre+10 {
+				simrt.Hit("lost-frames:more-than-the-retained-history")
+			} else {
+				simrt.Hit("lost-frames:fewer-than-the-retained-history")
+			}
+			env.Op("hardware loses %d frames before block %d (sample %d)", g, bi, w.sent)
+		} else if d := flagAt[bi]; d > 0 {
+			w.dropNext = d
+			simrt.Fault("dropped-frames-flag-on-contiguous-block")
+		}
 		w.feedBlock(n, nil)
 		if simrt.Draw(4) == 0 {
 			w.sync()
 		}
 	}
+	if backPressure {
+		// The consumer of the record and/or summary channel stalls (a subscriber that does not read, a
+		// socket at its high-water mark). The channels fill up, the processors must WAIT (nothing may
+		// be dropped: the oracle below compares what was published with the stream as always); then the
+		// consumer resumes and more data follow.
+		w.sync()
+		w.drain()
+		which := 1 + simrt.DrawFault(3)
+		w.sk.holdRecs, w.sk.holdSums = which&1 != 0, which&2 != 0
+		simrt.Fault("stall:record-consumer")
+		env.Op("consumer stalls: records=%v summaries=%v", w.sk.holdRecs, w.sk.holdSums)
+		released, feeding := false, true
+		simrt.GoHarness("release-consumer", func() {
+			full, fedAtFull, stepsAtFull := false, 0, 0
+			for feeding {
+				time.Sleep(100 * time.Microsecond)
+				if len(PubRecordsChan) == cap(PubRecordsChan) || len(PubSummariesChan) == cap(PubSummariesChan) {
+					if !full {
+						full, fedAtFull, stepsAtFull = true, w.fed, simrt.Steps()
+						simrt.Hit("publish-channel-full")
+					}
+					// resume after the producers have had ample opportunity to run into the full channel
+					if w.fed >= fedAtFull+8 || simrt.Steps()-stepsAtFull > 8000 {
+						break
+					}
+				}
+			}
+			w.sk.holdRecs, w.sk.holdSums = false, false
+			released = true
+		})
+		after := 0
+		for _, n := range bpBlocks {
+			if released {
+				if after++; after > 12 {
+					break
+				}
+			}
+			w.feedBlock(n, nil)
+		}
+		feeding = false
+		for !released {
+			time.Sleep(100 * time.Microsecond)
+		}
+		if after > 0 {
+			simrt.Hit("blocks-after-consumer-resumed")
+		}
+		env.Op("consumer resumed; %d blocks fed after that", after)
+	}
 	w.sync()
 	w.drain()
 	w.stop()
 	w.drain()
+	total = w.sent // what was delivered (a run with a stalled consumer may not use up its stream)
 
 	// ---- oracles
 	per := w.perChannel()
@@ -330,13 +528,13 @@ func pipeBody(env *simrt.Env, prop string) {
 				for f, n := range src {
 					left[f] = n
 				}
-				var own []recObs
-				for _, ro := range obs[c].recs {
+				var own []int // positions in obs[c].recs
+				for i, ro := range obs[c].recs {
 					if left[ro.rec.trigFrame] > 0 {
 						left[ro.rec.trigFrame]--
 						continue
 					}
-					own = append(own, ro)
+					own = append(own, i)
 				}
 				missing := 0
 				for _, n := range left {
@@ -348,8 +546,14 @@ func pipeBody(env *simrt.Env, prop string) {
 					simrt.Hit("secondary-not-cut")
 				}
 				// (which of two records at one frame was the secondary is unknowable and irrelevant: order by frame)
-				sort.SliceStable(own, func(i, j int) bool { return own[i].rec.trigFrame < own[j].rec.trigFrame })
-				obs[c].recs = own
+				all := obs[c]
+				sort.SliceStable(own, func(i, j int) bool { return all.recs[own[i]].rec.trigFrame < all.recs[own[j]].rec.trigFrame })
+				obs[c].recs, obs[c].idx, obs[c].across = nil, nil, nil
+				for _, i := range own {
+					obs[c].recs = append(obs[c].recs, all.recs[i])
+					obs[c].idx = append(obs[c].idx, all.idx[i])
+					obs[c].across = append(obs[c].across, all.across[i])
+				}
 			}
 			checkTriggers(w, c, &obs[c], total)
 		}
@@ -373,13 +577,56 @@ func epochOfRec(o *chanObs, idx int) *epoch {
 	return e
 }
 
+// section is a run of blocks with contiguous frame numbering: delivered samples [from, to) carry the
+// frame numbers off+from .. off+to-1. A new section starts where the hardware lost data (the first
+// frame number of a block is ahead of the end of the previous block).
+type section struct {
+	from, to int
+	off      int64 // frame number minus index into the delivered stream
+	block    int   // number of the section's first block
+}
+
+func sectionsOf(w *pipeWorld, bFirst []int, bFrame0 []FrameIndex) []section {
+	if len(bFrame0) != len(bFirst) || len(bFirst) == 0 {
+		return []section{{from: 0, to: w.sent, off: int64(w.F0)}}
+	}
+	var out []section
+	for b := range bFirst {
+		off := int64(bFrame0[b]) - int64(bFirst[b])
+		if b == 0 || off != out[len(out)-1].off {
+			if len(out) > 0 {
+				out[len(out)-1].to = bFirst[b]
+			}
+			out = append(out, section{from: bFirst[b], to: w.sent, off: off, block: b})
+		}
+	}
+	return out
+}
+
 // checkExcerpts is C01's oracle for one channel.
+//
+// Streams with lost frames (faulted runs). The property speaks of "the contiguous samples the data source
+// delivered around the record's stated trigger frame"; where frames are missing between two blocks there are
+// no such contiguous samples, and the property does not say what a record that reaches across the loss looks
+// like (dastard documents that it re-labels the samples it still holds with the frame numbers and time of the
+// new block, "not necessarily [consistent] with the previous values": DataStream.AppendSegment). The oracle
+// therefore demands, of a record that was cut after the block behind a loss had arrived and whose window
+// begins before the loss: right lengths, and samples that are a contiguous excerpt of what was delivered, at
+// the place its trigger frame names in the numbering of that block counted backwards. Every other record -
+// in particular every record that begins at or after the first sample behind the loss - gets the full check
+// in the numbering the source gave its samples.
 func checkExcerpts(w *pipeWorld, c int, o *chanObs) {
 	s := w.stream[c]
+	bFirst, bStamp, bFrame0 := w.blockFirst, w.blockStamp, w.blockFrame0
+	if o.blockFirst != nil {
+		bFirst, bStamp, bFrame0 = o.blockFirst, o.blockStamp, o.blockFrame0
+	}
+	secs := sectionsOf(w, bFirst, bFrame0)
+	o.idx = make([]int, len(o.recs))
+	o.across = make([]bool, len(o.recs))
 	for idx, ro := range o.recs {
 		r := ro.rec
 		e := epochOfRec(o, idx)
-		k := int(r.trigFrame - w.F0)
 		L := len(r.data)
 		variable := e.ts.EdgeMulti && e.ts.EMTState.mode == EMTRecordsVariableLength
 		if variable {
@@ -389,43 +636,89 @@ func checkExcerpts(w *pipeWorld, c int, o *chanObs) {
 		} else if L != e.nsamp || r.presamples != e.npre {
 			simrt.Fail("C01.lengths", "record:wrong-length", "chan %d record %d (frame %d): len=%d presamples=%d, configured nsamp=%d npre=%d", c, idx, r.trigFrame, L, r.presamples, e.nsamp, e.npre)
 		}
-		lo := k - r.presamples
-		if lo < 0 || lo+L > w.sent {
-			simrt.Fail("C01.range", "record:outside-delivered-stream", "chan %d record %d: trigger sample %d, window [%d,%d) but %d samples delivered", c, idx, k, lo, lo+L, w.sent)
+		same := func(lo int) int { // first differing position, -1 if none
+			for i := 0; i < L; i++ {
+				if r.data[i] != s[lo+i] {
+					return i
+				}
+			}
+			return -1
 		}
-		for i := 0; i < L; i++ {
-			if r.data[i] != s[lo+i] {
-				simrt.Fail("C01.samples", "record:samples-differ", "chan %d record %d (trigger sample %d, frame %d): data[%d]=%d but the source delivered %d at that position", c, idx, k, r.trigFrame, i, r.data[i], s[lo+i])
+		// the section whose numbering holds the stated trigger frame
+		home := -1
+		for j := range secs {
+			if kk := int64(r.trigFrame) - secs[j].off; kk >= int64(secs[j].from) && kk < int64(secs[j].to) {
+				home = j
 			}
 		}
-		// The record was cut while some block b was the newest one delivered: b holds the record's last
-		// sample or comes later, and had been delivered when the sink saw the record. The time the block
-		// stamps assign to sample k is stamp(b) + (k - first(b)) * period for that b.
-		okTime := false
-		var cands []time.Time
-		// (ro.cycle counts hand-overs the producer task has completed; the block being processed may
-		// not be counted yet, hence <=)
-		bFirst, bStamp := w.blockFirst, w.blockStamp
-		if o.blockFirst != nil {
-			bFirst, bStamp = o.blockFirst, o.blockStamp
+		// ordinary: the full check in the numbering the source gave the samples; returns "" if it holds
+		var k, lo int
+		ordinary := func() (rule, sig, msg string) {
+			if home < 0 {
+				return "C01.range", "record:outside-delivered-stream", fmt.Sprintf("chan %d record %d: trigger frame %d is no frame the source delivered (received in cycle %d; sections %v)", c, idx, r.trigFrame, ro.cycle, secs)
+			}
+			sec := secs[home]
+			k = int(int64(r.trigFrame) - sec.off)
+			lo = k - r.presamples
+			if lo < sec.from || lo+L > sec.to {
+				if len(secs) > 1 {
+					return "C01.range", "record:outside-delivered-stream", fmt.Sprintf("chan %d record %d: trigger sample %d (frame %d), window [%d,%d) leaves the contiguous part [%d,%d) of the delivered stream and is no excerpt of the delivered samples in the numbering of a later block either (received in cycle %d; sections %v)", c, idx, k, r.trigFrame, lo, lo+L, sec.from, sec.to, ro.cycle, secs)
+				}
+				return "C01.range", "record:outside-delivered-stream", fmt.Sprintf("chan %d record %d: trigger sample %d, window [%d,%d) but %d samples delivered", c, idx, k, lo, lo+L, w.sent)
+			}
+			if i := same(lo); i >= 0 {
+				return "C01.samples", "record:samples-differ", fmt.Sprintf("chan %d record %d (trigger sample %d, frame %d): data[%d]=%d but the source delivered %d at that position", c, idx, k, r.trigFrame, i, r.data[i], s[lo+i])
+			}
+			// The record was cut while some block b was the newest one delivered: b holds the record's last
+			// sample or comes later, and had been delivered when the sink saw the record. The time the block
+			// stamps assign to sample k is stamp(b) + (k - first(b)) * period for that b.
+			// (ro.cycle counts hand-overs the producer task has completed; the block being processed may
+			// not be counted yet, hence <=)
+			var cands []time.Time
+			for b := sec.block; b < len(bFirst) && b <= ro.cycle && bFirst[b] < sec.to; b++ {
+				end := w.sent
+				if b+1 < len(bFirst) {
+					end = bFirst[b+1]
+				}
+				if end < lo+L {
+					continue // the record's last sample had not been delivered yet
+				}
+				want := bStamp[b].Add(time.Duration(k-bFirst[b]) * w.period)
+				cands = append(cands, want)
+				if r.trigTime.Equal(want) {
+					return "", "", ""
+				}
+			}
+			return "C01.time", "record:wrong-time", fmt.Sprintf("chan %d record %d: trigger sample %d stamped %v, but the block time stamps give %v (one per block that could have been the newest when the record was cut)", c, idx, k, r.trigTime, cands)
 		}
-		for b := 0; b < len(bFirst) && b <= ro.cycle; b++ {
-			end := w.sent
-			if b+1 < len(bFirst) {
-				end = bFirst[b+1]
+		rule, sig, msg := ordinary()
+		if rule != "" {
+			// a record across a loss of frames: the numbering of the block behind the loss, counted backwards
+			// (with flat data several losses may fit: the one the window is nearest to)
+			best := int64(-1)
+			for j := len(secs) - 1; j >= 1; j-- {
+				kk := int64(r.trigFrame) - secs[j].off
+				lo := kk - int64(r.presamples)
+				if lo >= 0 && lo < int64(secs[j].from) && lo+int64(L) <= int64(w.sent) && ro.cycle >= secs[j].block && same(int(lo)) < 0 {
+					if d := int64(secs[j].from) - lo; best < 0 || d < best {
+						best = d
+						o.idx[idx] = int(kk)
+						o.across[idx] = true
+					}
+				}
 			}
-			if end < lo+L {
-				continue // the record's last sample had not been delivered yet
+			if !o.across[idx] {
+				simrt.Fail(rule, sig, "%s", msg)
 			}
-			want := bStamp[b].Add(time.Duration(k-bFirst[b]) * w.period)
-			cands = append(cands, want)
-			if r.trigTime.Equal(want) {
-				okTime = true
-				break
+			simrt.Hit("record-across-lost-frames")
+			if r.signed != w.signed[c] {
+				simrt.Fail("C01.signed", "record:wrong-signedness", "chan %d record %d: signed=%v, channel is %v", c, idx, r.signed, w.signed[c])
 			}
+			continue
 		}
-		if !okTime {
-			simrt.Fail("C01.time", "record:wrong-time", "chan %d record %d: trigger sample %d stamped %v, but the block time stamps give %v (one per block that could have been the newest when the record was cut)", c, idx, k, r.trigTime, cands)
+		o.idx[idx] = k
+		if home > 0 {
+			simrt.Hit("ordinary-record-behind-lost-frames")
 		}
 		if w.stampJitter != nil {
 			simrt.Hit("record-with-jittered-block-stamps")
@@ -446,15 +739,54 @@ func checkExcerpts(w *pipeWorld, c int, o *chanObs) {
 func checkTriggers(w *pipeWorld, c int, o *chanObs, total int) {
 	s := w.stream[c]
 	signed := w.signed[c]
-	var trig []int // all trigger sample indices, in emission order
-	for _, ro := range o.recs {
-		trig = append(trig, int(ro.rec.trigFrame-w.F0))
+	// trigger sample indices into the delivered stream, in emission order (resolved by checkExcerpts), and
+	// the frame numbers the records state (distances between triggers are distances in frames)
+	var trig []int
+	var frame []int64
+	for i, ro := range o.recs {
+		trig = append(trig, o.idx[i])
+		frame = append(frame, int64(ro.rec.trigFrame))
 	}
 	sorted := append([]int(nil), trig...)
 	sort.Ints(sorted)
 	hasTrigIn := func(lo, hi int) bool { // any emitted trigger t with lo <= t <= hi
 		i := sort.SearchInts(sorted, lo)
 		return i < len(sorted) && sorted[i] <= hi
+	}
+	// Lost frames (faulted runs): the criteria compare neighbouring samples, and the property does not say
+	// what a "sample satisfying the criterion" is where the neighbours are not neighbours in time, nor what
+	// is owed for the samples next to the loss. Completeness is demanded again one record length away from
+	// the loss on either side; soundness everywhere except on the three samples behind the loss whose
+	// criterion reaches across it.
+	secs := sectionsOf(w, w.blockFirst, w.blockFrame0)
+	nearLoss := func(k, d int) bool {
+		for j := 1; j < len(secs); j++ {
+			if k > secs[j].from-d && k < secs[j].from+d {
+				return true
+			}
+		}
+		return false
+	}
+	// context for messages of runs with lost frames: the sections and the records around sample k
+	ctx := func(k int) string {
+		if len(secs) < 2 {
+			return ""
+		}
+		out := fmt.Sprintf("; frames were lost in this run: sections %v; records near: ", secs)
+		for i := range trig {
+			if trig[i] > k-60 && trig[i] < k+60 {
+				out += fmt.Sprintf("[sample %d frame %d cycle %d across=%v] ", trig[i], frame[i], o.recs[i].cycle, o.across[i])
+			}
+		}
+		return out
+	}
+	criterionAcrossLoss := func(k int) bool {
+		for j := 1; j < len(secs); j++ {
+			if k >= secs[j].from && k < secs[j].from+3 {
+				return true
+			}
+		}
+		return false
 	}
 	for ei := range o.epochs {
 		e := &o.epochs[ei]
@@ -471,24 +803,36 @@ func checkTriggers(w *pipeWorld, c int, o *chanObs, total int) {
 		}
 		// (1) soundness and (4) no overlap, over the records emitted in this epoch
 		prev := -1 << 40
+		prevF := int64(-1) << 60
 		for idx := e.recFrom; idx < recTo; idx++ {
 			k := trig[idx]
 			ok := (ts.EdgeTrigger && edgeCrit(s, k, signed, ts)) || (ts.LevelTrigger && levelCrit(s, k, signed, ts))
-			if !ok && ts.AutoTrigger && (idx == e.recFrom || k-prev >= autoD) {
+			if !ok && ts.AutoTrigger && (idx == e.recFrom || frame[idx]-prevF >= int64(autoD)) {
 				ok = true
 			}
+			if !ok && criterionAcrossLoss(k) {
+				ok = true
+				simrt.Hit("trigger-on-first-samples-behind-lost-frames")
+			}
 			if !ok {
-				simrt.Fail("C02.sound", "trigger:unsound", "chan %d: record at sample %d (frame %d) satisfies no enabled criterion (%s; previous trigger %d)", c, k, o.recs[idx].rec.trigFrame, tsString(ts), prev)
+				simrt.Fail("C02.sound", "trigger:unsound", "chan %d: record at sample %d (frame %d) satisfies no enabled criterion (%s; previous trigger %d)%s", c, k, o.recs[idx].rec.trigFrame, tsString(ts), prev, ctx(k))
 			}
-			if ts.EdgeTrigger && !ts.LevelTrigger && !ts.AutoTrigger && idx > e.recFrom && k-prev < e.nsamp {
-				simrt.Fail("C02.no-overlap", "trigger:edge-overlap", "chan %d: edge-only triggers at samples %d and %d are closer than one record (%d)", c, prev, k, e.nsamp)
+			if ts.EdgeTrigger && !ts.LevelTrigger && !ts.AutoTrigger && idx > e.recFrom && frame[idx]-prevF < int64(e.nsamp) {
+				simrt.Fail("C02.no-overlap", "trigger:edge-overlap", "chan %d: edge-only triggers at samples %d and %d (frames %d and %d) are closer than one record (%d)%s", c, prev, k, prevF, frame[idx], e.nsamp, ctx(k))
 			}
-			prev = k
+			prev, prevF = k, frame[idx]
 		}
 		// completeness over the interior of the epoch
+		// (several requests may follow each other without data in between: every record length that was in
+		// force at that boundary counts, and the one before it)
 		old := e.nsamp
-		if ei > 0 && o.epochs[ei-1].nsamp > old {
-			old = o.epochs[ei-1].nsamp
+		for j := ei - 1; j >= 0; j-- {
+			if o.epochs[j].nsamp > old {
+				old = o.epochs[j].nsamp
+			}
+			if o.epochs[j].from < e.from {
+				break
+			}
 		}
 		lo := e.from + 2*old + 10
 		if ei == 0 {
@@ -499,40 +843,67 @@ func checkTriggers(w *pipeWorld, c int, o *chanObs, total int) {
 		}
 		hi := total - 2*e.nsamp // exclusive
 		if ei+1 < len(o.epochs) {
-			nx := o.epochs[ei+1].nsamp
-			if nx < e.nsamp {
-				nx = e.nsamp
+			nx := e.nsamp
+			for j := ei + 1; j < len(o.epochs) && o.epochs[j].from == sampTo; j++ {
+				if o.epochs[j].nsamp > nx {
+					nx = o.epochs[j].nsamp
+				}
 			}
 			hi = sampTo - 2*nx - 10
 		}
 		_ = sampTo
 		for k := lo; k < hi; k++ {
+			if len(secs) > 1 && nearLoss(k, e.nsamp) {
+				continue
+			}
 			if ts.EdgeTrigger && edgeCrit(s, k, signed, ts) {
 				if isEdgeOfBlock(w, k) {
 					simrt.Hit("criterion-sample-at-block-edge")
 				}
 				if !hasTrigIn(k-e.nsamp, k) {
-					simrt.Fail("C02.edge-complete", "trigger:edge-missed", "chan %d: sample %d (frame %d) satisfies the edge criterion but is no trigger and no trigger lies in the %d samples before it (%s)", c, k, int64(w.F0)+int64(k), e.nsamp, tsString(ts))
+					simrt.Fail("C02.edge-complete", "trigger:edge-missed", "chan %d: sample %d (frame %d) satisfies the edge criterion but is no trigger and no trigger lies in the %d samples before it (%s)%s", c, k, int64(w.F0)+int64(k), e.nsamp, tsString(ts), ctx(k))
 				}
 			}
 			if ts.LevelTrigger && levelCrit(s, k, signed, ts) {
 				if !hasTrigIn(k-e.nsamp, k+e.nsamp) {
-					simrt.Fail("C02.level-complete", "trigger:level-missed", "chan %d: sample %d (frame %d) satisfies the level criterion but no trigger lies within one record (%d) of it (%s)", c, k, int64(w.F0)+int64(k), e.nsamp, tsString(ts))
+					simrt.Fail("C02.level-complete", "trigger:level-missed", "chan %d: sample %d (frame %d) satisfies the level criterion but no trigger lies within one record (%d) of it (%s)%s", c, k, int64(w.F0)+int64(k), e.nsamp, tsString(ts), ctx(k))
 				}
 			}
 		}
 		// (5) auto trigger cadence
 		if ts.AutoTrigger && ts.AutoVetoRange == 0 && hi-lo > 0 {
-			last := lo
-			i := sort.SearchInts(sorted, lo)
-			for ; i < len(sorted) && sorted[i] < hi; i++ {
-				if sorted[i]-last > autoD+e.nsamp {
-					simrt.Fail("C02.auto-gap", "trigger:auto-gap", "chan %d: no trigger between samples %d and %d although auto trigger (delay %d samples, record %d) is on", c, last, sorted[i], autoD, e.nsamp)
+			// (a loss of frames cuts the range: the cadence is owed up to one record before the loss and
+			// again from one record behind it)
+			type span struct{ lo, hi int }
+			spans := []span{{lo, hi}}
+			for j := 1; j < len(secs); j++ {
+				P := secs[j].from
+				last := spans[len(spans)-1]
+				if P-e.nsamp < last.hi && P+e.nsamp > last.lo {
+					spans = spans[:len(spans)-1]
+					if P-e.nsamp > last.lo {
+						spans = append(spans, span{last.lo, P - e.nsamp})
+					}
+					if P+e.nsamp < last.hi {
+						spans = append(spans, span{P + e.nsamp, last.hi})
+					}
+					if len(spans) == 0 {
+						break
+					}
 				}
-				last = sorted[i]
 			}
-			if hi-last > autoD+e.nsamp {
-				simrt.Fail("C02.auto-gap", "trigger:auto-gap", "chan %d: no trigger between samples %d and %d although auto trigger (delay %d samples, record %d) is on", c, last, hi, autoD, e.nsamp)
+			for _, sp := range spans {
+				last := sp.lo
+				i := sort.SearchInts(sorted, sp.lo)
+				for ; i < len(sorted) && sorted[i] < sp.hi; i++ {
+					if sorted[i]-last > autoD+e.nsamp {
+						simrt.Fail("C02.auto-gap", "trigger:auto-gap", "chan %d: no trigger between samples %d and %d although auto trigger (delay %d samples, record %d) is on%s", c, last, sorted[i], autoD, e.nsamp, ctx(last))
+					}
+					last = sorted[i]
+				}
+				if sp.hi-last > autoD+e.nsamp {
+					simrt.Fail("C02.auto-gap", "trigger:auto-gap", "chan %d: no trigger between samples %d and %d although auto trigger (delay %d samples, record %d) is on%s", c, last, sp.hi, autoD, e.nsamp, ctx(last))
+				}
 			}
 			simrt.Hit("auto-cadence-checked")
 		}
